@@ -275,6 +275,17 @@ class Gen:
         prog, cols, eng = state
         if op == "chain":
             r = rng.random()
+            two = None
+            if r < 0.08 and cols:
+                # two branches off one shared operand that add the SAME new column with different
+                # expressions: rows handed on by the shared operand must not be shared between them
+                free = [c for c in KEYS if c not in cols]
+                if free:
+                    e1, e2 = gen_e(rng, cols, 1, need_col=True), gen_e(rng, cols, 2, need_col=True)
+                    if ecols(e1) and ecols(e2):
+                        two = (["calc", prog, free[0], e1, None], ["calc", prog, free[0], e2, None])
+            if two is not None:
+                return ["chain", two[0], two[1]], cols | {free[0]}, eng
             if r < 0.25:
                 other = state  # self-chain (shared operand)
             elif r < 0.4:
